@@ -52,8 +52,10 @@ func Load(r *rt.Runtime) (rt.Value, func()) {
 		r.SetEnvGoFunc(env, "loadfile", loadfile, 3, false),
 	)
 	// That's not safe!
-	r.SetEnvGoFunc(env, "collectgarbage", collectgarbage, 2, false)
-	return rt.NilValue, nil
+	gc := new(gcControl)
+	r.SetEnvGoFunc(env, "collectgarbage", gc.collectgarbage, 2, false)
+	// When the library is unloaded, this runtime no longer keeps the collector stopped.
+	return rt.NilValue, gc.restart
 }
 
 func ToString(t *rt.Thread, v rt.Value) (string, error) {
